@@ -14,7 +14,7 @@ RULE = ('one case = one scripted server presenting chosen public-key blobs durin
         'signed by RSA (1024..8192), Ed25519 and ECDSA (P-256/384/521) CAs; text, verbose and JSON.  Oracle: reported size == bit length of the presented modulus (independent blob parser), CA type/size likewise, fingerprints == '
         'hashlib SHA-256/MD5 of the presented blob (one RSA-family entry, none for certificates), differential threshold oracle on the notes relative to the baseline.  Non-trivial: probe answered and a size or fingerprint compared; '
         'distinct = distinct (blob set, name list, rendering)')
-REQUIRED = {'sizes_compared': 40, 'fingerprints_compared': 40, 'threshold_checks': 40, 'below_2048': 5, 'warn_band': 5, 'ca_checks': 8, 'json_runs': 10}
+REQUIRED = {'plain_beside_cert_checks': 20, 'sizes_compared': 40, 'fingerprints_compared': 40, 'threshold_checks': 40, 'below_2048': 5, 'warn_band': 5, 'ca_checks': 8, 'json_runs': 10}
 ASSUMPTIONS = ['moduli are multiples of 64 bits as the quantifier says; sizes that are not a multiple of 16 bits form a separate sub-family run in the thorough tier only (the tool measures whole bytes)',
                'threshold oracle is differential (notes at size B minus notes at 4096 bits for the same names), so note wording is not frozen',
                'for certificates both the host key and the CA key are rated; equal warning texts may be merged by the tool, so ">= 1 extra warning" is demanded, not a count']
@@ -105,6 +105,8 @@ def band(bits):
 
 
 def check_fps(fps, blobs, render, viol, counters, tag):
+    # ECDSA/DSS fingerprints are only listed by some renderings (verbose text, JSON); they are not what this oracle is about
+    fps = [f for f in fps if not (f[0].startswith('ecdsa-') or f[0] == 'ssh-dss')]
     """blobs: {report type name: blob} expected to have fingerprints; others must have none."""
     got = {}
     for kt, alg, val in fps:
@@ -177,7 +179,9 @@ def run_cert(c):
 
     def script(bits, ca):
         spec = {'type': ht, 'bits': bits, 'ca': ca}
-        return {'banner': 'SSH-2.0-OpenSSH_9.1', 'kex': audit.sym_kex(['curve25519-sha256'], [name, 'ssh-ed25519'], ['aes128-ctr'], ['hmac-sha2-256']), 'hostkeys': {name: spec, 'ssh-ed25519': {'type': 'ed25519'}}, 'gex': None}
+        kexname = ['curve25519-sha256', 'ecdh-sha2-nistp256', 'diffie-hellman-group14-sha256'][(c['bits'] // 512 + len(c['ca']['type'])) % 3]
+        return {'banner': 'SSH-2.0-OpenSSH_9.1', 'kex': audit.sym_kex([kexname], [name, 'ssh-ed25519', 'ssh-ed448', 'ecdsa-sha2-nistp256'], ['aes128-ctr'], ['hmac-sha2-256']),
+                'hostkeys': {name: spec, 'ssh-ed25519': {'type': 'ed25519'}, 'ssh-ed448': {'type': 'ed448'}, 'ecdsa-sha2-nistp256': {'type': 'ecdsa', 'bits': 256}}, 'gex': None}
     r, res, fps, p = observe(script(c['bits'], c['ca']), c['render'], [name])
     rb, base, _f, _p = observe(script(4096, {'type': 'rsa', 'bits': 4096}), c['render'], [name])
     if res is None or base is None:
@@ -218,7 +222,18 @@ def run_cert(c):
     if (len(ex['fail']) != n_fail_want) or (bool(ex['warn']) != want_warn) or ex['info'] or ex['fail_lost'] or ex['warn_lost']:
         viol.append(_v('C11/size-rating-wrong:cert:host-%s:ca-%s%s' % (hb, cb, ':ecdsa-ca' if c['ca']['type'] == 'ecdsa' else ''), 'certificate notes do not follow the thresholds for host key and CA key',
                        host_bits=c['bits'], ca=c['ca'], extra=ex, render=c['render']))
-    check_fps(fps, {'ssh-ed25519': wire.ed25519_blob()}, c['render'], viol, counters, 'cert')
+    check_fps(fps, {'ssh-ed25519': wire.ed25519_blob(), 'ssh-ed448': wire.ed448_blob()}, c['render'], viol, counters, 'cert')
+    # the plain keys presented beside the certificate are not certificates: no CA details, and the same notes as beside the baseline certificate
+    for plain in ('ssh-ed25519', 'ssh-ed448', 'ecdsa-sha2-nistp256'):
+        po, pb = res.get(plain), base.get(plain)
+        if po is None or pb is None:
+            viol.append(_v('C11/key-missing', 'advertised host key absent from the report', name=plain))
+            continue
+        counters['plain_beside_cert_checks'] = counters.get('plain_beside_cert_checks', 0) + 1
+        if po['ca_bits'] is not None or po['ca_type'] is not None:
+            viol.append(_v('C11/ca-reported-for-plain-key:' + plain, 'a non-certificate host key is reported with CA details', name=plain, got=[po['ca_type'], po['ca_bits']], cert=name, ca=c['ca']))
+        if po['notes'] != pb['notes']:
+            viol.append(_v('C11/plain-key-notes-depend-on-certificate:' + plain, 'the notes of a plain host key change with the certificate presented beside it', name=plain, got=po['notes'], want=pb['notes']))
     return viol, counters
 
 
